@@ -7,7 +7,7 @@
 J=6; TIER=quick
 while [ $# -gt 0 ]; do case "$1" in -j) J=$2; shift 2;; -t) TIER=$2; shift 2;; *) break;; esac; done
 cd ${VSRC:-/verif} || exit 2
-[ $# -eq 0 ] && set -- $(ls seeded | grep -v README)
+[ $# -eq 0 ] && set -- $(cd seeded && ls -d */ | tr -d /)
 export TIER
 one() {
   name=$1; id=${name%%-*}
